@@ -107,6 +107,18 @@ func hostileCheckpoint(w *world.World, l *world.LogW, cls string, rng *rand.Rand
 		return 500, []byte("boom")
 	case "empty":
 		return 200, nil
+	case "json-null-shard":
+		// a Rekor-like answer whose active shard is another tree and whose inactive shards contain a null
+		b, _ := json.Marshal(map[string]any{"signedTreeHead": string(honest), "treeID": "9999", "treeSize": pubSize, "rootHash": "",
+			"inactiveShards": []any{nil, map[string]any{"signedTreeHead": string(honest), "treeID": "1234", "treeSize": pubSize}}})
+		return 200, b
+	case "json-inactive-shard":
+		b, _ := json.Marshal(map[string]any{"signedTreeHead": "", "treeID": "9999", "treeSize": 1, "rootHash": "",
+			"inactiveShards": []any{map[string]any{"signedTreeHead": string(honest), "treeID": "1234", "treeSize": pubSize}}})
+		return 200, b
+	case "json-odd-types":
+		return 200, []byte([]string{`{"signedTreeHead": 5, "treeID": ["1234"], "inactiveShards": {"a": 1}}`, `[1,2,3]`, `{"treeID":"1234"}`, `null`, `{"inactiveShards":[[]]}`,
+			`{"treeID":"1234","signedTreeHead":null,"treeSize":"big"}`}[rng.Intn(6)])
 	}
 	panic("unknown checkpoint class " + cls)
 }
@@ -130,6 +142,10 @@ func hostileData(cls string, honest func() (int, []byte), rng *rand.Rand) (int, 
 		return 500, []byte("boom")
 	case "empty":
 		return 200, nil
+	case "json-null":
+		return 200, []byte([]string{`{"hashes":null}`, `{"hashes":[null]}`, `null`, `{}`}[rng.Intn(4)])
+	case "json-odd":
+		return 200, []byte([]string{`{"hashes":["zz"]}`, `{"hashes":"abcd"}`, `{"hashes":[1,2]}`, `{"hashes":["", ""]}`, `[[]]`}[rng.Intn(5)])
 	}
 	panic("unknown data class " + cls)
 }
@@ -223,7 +239,7 @@ func hostileChild(args []string) error {
 	srv := httptest.NewServer(http.HandlerFunc(func(rw http.ResponseWriter, r *http.Request) {
 		if r.URL.Path == cpPath {
 			status, body := hostileCheckpoint(w, l, s.CP, rng)
-			if s.Feeder == "rekor" && status == 200 && s.CP != "random" && s.CP != "oversized" && s.CP != "empty" && s.CP != "truncated" {
+			if s.Feeder == "rekor" && status == 200 && s.CP != "random" && s.CP != "oversized" && s.CP != "empty" && s.CP != "truncated" && !strings.HasPrefix(s.CP, "json-") {
 				body, _ = json.Marshal(map[string]any{"signedTreeHead": string(body), "treeID": "1234", "treeSize": pubSize, "rootHash": "00"})
 			}
 			rw.WriteHeader(status)
